@@ -338,6 +338,34 @@ func checkC13(c *Check) {
 			st := u.Instr.(*ssa.Store)
 			key := p.FuncKey(u.Fn) + ":hooks.store"
 			if u.Fn != m {
+				// the runner may release the list once every hook has run: a nil store from which no hook
+				// invocation is reachable, inside the runner (which the status region calls once)
+				runner := p.Meth("flamego", "responseWriter", "callBefore")
+				if runner == nil {
+					runner = region
+				}
+				isHookCall := func(in ssa.Instruction) bool {
+					ci, ok := in.(ssa.CallInstruction)
+					if !ok || ci.Common().IsInvoke() {
+						return false
+					}
+					ld, ok := ci.Common().Value.(*ssa.UnOp)
+					if !ok || ld.Op != token.MUL {
+						return false
+					}
+					ia, ok := ld.X.(*ssa.IndexAddr)
+					return ok && fieldOf(addrOfLoad(strip(ia.X))) == fHooks
+				}
+				if u.Fn == runner && vNil(st.Val) {
+					after, _ := Query{Fn: runner}.After(st, isHookCall)
+					before, _ := Query{Fn: runner}.FromEntry(isHookCall)
+					if after == nil && before != nil {
+						c.OK(key, p.Pos(st.Pos()), "the runner releases the hook list after the last hook ran (no hook invocation is reachable from the store)", 1)
+						continue
+					}
+					c.Bad(key, p.Pos(st.Pos()), "the hook list is cleared where hooks are still to run: registered hooks are dropped")
+					continue
+				}
 				c.Bad(key, p.Pos(st.Pos()), "hook list is modified outside Before()")
 				continue
 			}
